@@ -1,0 +1,53 @@
+//go:build verif
+
+package tempfile
+
+// Contracts for the deductive checks in /verif (read by /verif/govc; comment-only, no code).
+
+//@ import os os
+//@ import filepath path/filepath
+//@ import io io
+
+// Typestate of one atomic file replacement (ghost): 0 nothing, 1 temporary file created, 2 all data written to it,
+// 3 temporary file closed, 4 renamed over the target. The contracts of the os calls below are ASSUMED.
+//@ ghost var fsPhase int
+
+//@ extern os.OpenFile
+//@   assigns fsPhase
+//@   ensures created: (result1 == nil ==> (result0 != nil && fsPhase == 1)) && (result1 != nil ==> fsPhase == old(fsPhase))
+//@ extern os.File.Write
+//@   assigns fsPhase
+//@   ensures n: result1 == nil ==> (0 <= result0 && result0 <= len(b))
+//@   ensures written: fsPhase == ite(old(fsPhase) == 1 && result1 == nil && result0 == len(b), 2, old(fsPhase))
+//@ extern os.File.Close
+//@   assigns fsPhase
+//@   ensures closed: fsPhase == ite(old(fsPhase) == 2, 3, old(fsPhase))
+//@ extern os.File.Name
+//@   pure
+//@   assigns nothing
+//@ extern os.Rename
+//@   requires complete: fsPhase == 3
+//@   assigns fsPhase
+//@   ensures renamed: fsPhase == ite(result == nil, 4, old(fsPhase))
+//@ extern os.Remove
+//@   assigns nothing
+//@ extern os.IsExist
+//@   assigns nothing
+//@   ensures nilcase: arg0 == nil ==> !result
+
+// ASSUMED (trusted): the pseudo-random suffix generator only updates its own seed.
+//@ func randWriteFileSuffix
+//@   trusted
+//@   assigns atomicWriteFileRand
+//@ func writeFileRandReseed
+//@   trusted
+//@   assigns nothing
+
+// The target is replaced (phase 4) exactly when nil is returned, and only by renaming a temporary file that was
+// created, completely written and closed first.
+//@ func WriteFileAtomic
+//@   requires start: fsPhase == 0
+//@   requires stdlib: io.ErrShortWrite != nil
+//@   assigns fsPhase, atomicWriteFileRand
+//@   ensures done: result == nil <==> fsPhase == 4
+//@   loop 1 invariant phase: fsPhase == 0 && 0 <= i && i <= atomicWriteFileMaxNumWriteAttempts
